@@ -937,3 +937,151 @@ def c17():
 
 
 CHECKS.update({"C07": c07, "C17": c17})
+
+
+# =========================================================================== C04 / C18: foreign files
+def export_comps(maxrows):
+    from wfam import _export
+    rows = _export("ExportForeign", {"OutFile": '"comps.ndjson"', "MaxRows": maxrows}, "comps.ndjson", tag="comps")
+    return {r["n"]: sorted(r["comps"]) for r in rows}
+
+
+SEG_POLICIES = ["greedy", "rle1", "bp", "bp8", "rand"]
+
+
+def foreign_case(rng, rows, ncols, comps, force=None):
+    """one physical encoding of the logical rows, chosen by the seeded rng (force pins some dimensions)"""
+    n = len(rows)
+    force = force or {}
+    rgsplit = force.get("rgsplit") or rng.choice([c for c in comps[n] if len(c) <= 3])
+    cols = []
+    for ci in range(ncols):
+        pages = [rng.choice(comps[k]) if k else [] for k in rgsplit]
+        cols.append({"codec": force.get("codec") or rng.choice(CODECS), "literal": rng.random() < 0.5, "pages": pages,
+                     "seg": force.get("seg") or rng.choice(SEG_POLICIES), "pad": rng.randrange(16), "stats": rng.random() < 0.5,
+                     "extras": rng.random() < 0.3})
+    return {"rows": rows, "rgsplit": rgsplit, "cols": cols, "extras": rng.random() < 0.5, "seed": rng.randrange(1 << 30)}
+
+
+def c04():
+    ck = Check("C04", "model_checking")
+    q = ck.quick()
+    mc_reader(ck, ["RoundTrip", "TypeOK"], "SingleReadPerPage", "FragmentationInvariant")
+    r = model_check("MC_Segs", {"W": 1, "MaxLen": 7 if q else 9}, ["AllForeignOK"], workers=8, tag="mcsegs04", timeout=1500)
+    ck.cov["states"] += r["distinct"]
+    ck.cov["transitions"] += r["states"]
+    progs = build_programs(fixed_programs())
+    ok = usable(progs)
+    if len(ok) != len(progs):
+        raise HarnessError("fixed schema set does not build")
+    load_schemas(ok)
+    nmax = 5 if q else 6
+    comps = export_comps(nmax)
+    recs = export_records([(p.key, p.schema) for p in ok], 2, 60 if q else 300, ck.seed)
+    distinct = set()
+    for pi, p in enumerate(ok):
+        cyc = rec_cycle(recs[p.key]["recs"], ck.seed + pi)
+        ncols = len(p.cols)
+        plans = []
+        # every composition as row-group split and as page split at least once; every codec x segmentation policy
+        for n in range(1, nmax + 1):
+            for comp in comps[n]:
+                if len(comp) <= 3:
+                    plans.append((n, {"rgsplit": comp}))
+        for codec in CODECS:
+            for seg in SEG_POLICIES:
+                plans.append((nmax, {"codec": codec, "seg": seg}))
+        for _ in range(40 if q else 600):
+            plans.append((ck.rng.randrange(1, nmax + 1), None))
+        for n, force in plans:
+            rows = [next(cyc) for _ in range(n)]
+            fc = foreign_case(ck.rng, rows, ncols, comps, force)
+            p.cases.append({"page": 1000, "codec": "snappy", "poff": ck.rng.randrange(16), "ops": [], "foreign": fc})
+            ck.add("evaluations")
+            distinct.add(json.dumps([p.key, fc["rgsplit"], [(c["codec"], c["seg"], c["pages"]) for c in fc["cols"]]]))
+        # long level streams: many rows, so that runs cross the 8-value / 63-group boundaries
+        for b in range(3 if q else 20):
+            rows = [big_record(ck.rng, p.schema, 30, False) for _ in range(ck.rng.choice([70, 200, 600]))]
+            k = len(rows)
+            fc = {"rows": rows, "rgsplit": [k - k // 3, k // 3], "extras": True, "seed": ck.rng.randrange(1 << 30),
+                  "cols": [{"codec": ck.rng.choice(CODECS), "literal": ck.rng.random() < 0.5, "pages": [[k - k // 3 - 5, 5], [k // 3]],
+                            "seg": ck.rng.choice(["rand", "bp", "rle1", "greedy"]), "pad": ck.rng.randrange(16), "stats": True, "extras": False}
+                           for _ in range(ncols)]}
+            p.cases.append({"page": 1000, "codec": "snappy", "poff": ck.rng.randrange(16), "ops": [], "foreign": fc, "reads": [{"mode": "chunk", "chunk": 7}]})
+            ck.add("evaluations")
+            distinct.add(json.dumps([p.key, "big", b]))
+    ck.cov["distinct_nontrivial"] = len(distinct)
+    ck.cov["rule"] = ("foreign files produced by the harness's own writer for the schemas of F: logical rows = TLC-exported record structures; physical choices "
+                      "= every composition of n <= %d rows as row-group split (TLC ExportForeign), independent per-column page splits at record boundaries, "
+                      "per-column codec (uncompressed/snappy literal-only/snappy with copies/gzip), level-run segmentation policy {greedy, one RLE run per level, "
+                      "one big bit-packed run, one group per run, seeded random incl. > 63 groups and non-minimal headers}, junk padding, statistics and "
+                      "optional/unknown thrift fields present or absent; plus files of 70-600 rows; every file is first parsed back by the independent parser; "
+                      "distinct by (schema, row-group split, per-column codec/policy/page split)" % nmax)
+    ck.cov["exhaustive"] = False
+    run_programs(ok, "c04", timeout=1800)
+    ck.sample({"schema": ok[0].key, "physical": {k: v for k, v in ok[0].cases[5]["foreign"].items() if k != "rows"}})
+    judge_programs(ck, ok, ["C04", "HARNESS"], "c04",
+                   describe=lambda p, c: "%s|%s" % (p.key, json.dumps({k: v for k, v in c["foreign"].items() if k != "rows"})[:400]))
+    ck.assumptions += ["harness/pq.WriteFile + parser form the independent reference (parse(write(f)) = f is checked for every file); no third-party Parquet "
+                       "implementation is available offline"]
+    ck.finish()
+
+
+def features_for(col):
+    fs = ["dict", "index-before", "v2", "codec-lzo", "codec-brotli", "codec-lz4", "codec-zstd", "codec-lz4raw"]
+    if col["gotype"] == "bool":
+        fs.append("enc-rle-bool")
+    if col["gotype"] in ("int32", "int64", "uint32", "uint64"):
+        fs.append("enc-delta")
+    if col["gotype"] == "string":
+        fs.append("enc-delta-length")
+    if col["maxdef"] > 0:
+        fs.append("levels-bitpacked")
+    return fs
+
+
+def c18():
+    ck = Check("C18", "model_checking")
+    q = ck.quick()
+    mc_reader(ck, ["UnsupportedRefused", "TypeOK"], "AcceptUnsupported", "UnsupportedRefused")
+    progs = build_programs(fixed_programs(["AllTypes", "Document", "BoolHeavy"] if q else None))
+    ok = usable(progs)
+    load_schemas(ok)
+    recs = export_records([(p.key, p.schema) for p in ok], 2, 30, ck.seed)
+    distinct = set()
+    for pi, p in enumerate(ok):
+        cyc = rec_cycle(recs[p.key]["recs"], ck.seed + pi)
+        ncols = len(p.cols)
+        for ci, col in enumerate(p.cols):
+            for feat in features_for(col):
+                for rg in (0, 1):
+                    for page in (0, 1):
+                        if q and (rg + page + ci + len(feat)) % 2 == 1 and feat not in ("dict",):
+                            continue
+                        rows = [next(cyc) for _ in range(4)]
+                        codec = CODECS[(ci + rg + page) % 3]
+                        if feat.startswith("codec-"):
+                            codec = "uncompressed"
+                        fc = {"rows": rows, "rgsplit": [2, 2], "extras": False, "seed": ci,
+                              "cols": [{"codec": codec if i == ci else "snappy", "literal": False, "pages": [[1, 1], [1, 1]], "seg": "greedy", "pad": 0,
+                                        "stats": False, "extras": False} for i in range(ncols)],
+                              "unsup": {"rg": rg, "col": ci, "page": page, "feature": feat}}
+                        p.cases.append({"page": 1000, "codec": "snappy", "poff": (ci + ck.seed) % 16, "ops": [], "foreign": fc})
+                        ck.add("evaluations")
+                        distinct.add((p.key, ci, feat, rg, page))
+    ck.cov["distinct_nontrivial"] = len(distinct)
+    ck.cov["rule"] = ("otherwise valid two-row-group, two-pages-per-chunk files of the schemas of F in which exactly one chunk (every column x both row groups x "
+                      "both page positions) uses one unsupported feature applicable to that column: dictionary page + dictionary-encoded data pages, an index "
+                      "page, DATA_PAGE_V2, value encodings RLE (bool) / DELTA_BINARY_PACKED (ints) / DELTA_LENGTH_BYTE_ARRAY (strings), BIT_PACKED levels, "
+                      "codecs LZO/BROTLI/LZ4/ZSTD/LZ4_RAW (genuinely encoded content except LZO/BROTLI); distinct by (schema, column, feature, row group, page)")
+    ck.cov["exhaustive"] = not q
+    run_programs(ok, "c18", timeout=1800)
+    ck.sample({"schema": ok[0].key, "unsup": ok[0].cases[3]["foreign"]["unsup"]})
+    judge_programs(ck, ok, ["C18", "HARNESS"], "c18",
+                   describe=lambda p, c: "%s|col=%s|%s" % (p.key, ".".join(p.cols[c["foreign"]["unsup"]["col"]]["path"]), c["foreign"]["unsup"]["feature"]))
+    ck.assumptions += ["rows of row groups before the affected one may be delivered; none from the affected row group or later",
+                       "LZO and BROTLI bodies are not genuinely compressed (no encoder offline); the reader has no decoder for them and must refuse by codec id"]
+    ck.finish()
+
+
+CHECKS.update({"C04": c04, "C18": c18})
